@@ -50,6 +50,13 @@ def jobs(tier, seed):
                     out.append({'fn': 'ratios_sym', 'cfg': {'recv': recv, 'n': n, 'disperse': disperse, 'amount': amt,
                                                             'mode': m, 'flav': 'frac' if i % 2 else 'dec'},
                                 'opts': {'linearise': True, 'feas_ms': 1000}})
+    # n = 4 (quick) / 5 (thorough) with dispersal under the half modes: the sort of the rounding errors matters
+    # (amounts with an odd number of quanta: under half-even the tie directions then differ between portions)
+    for recv, amt in (('money', '0.99'), ('dv', '0.999875'), ('user', '11/3')):
+        for hm in ('ROUND_HALF_UP', 'ROUND_HALF_EVEN', 'ROUND_HALF_DOWN'):
+            out.append({'fn': 'ratios_sym', 'cfg': {'recv': recv, 'n': 4 if tier == 'quick' else 5, 'disperse': True,
+                                                    'amount': amt if hm != 'ROUND_HALF_DOWN' else '-' + amt, 'mode': hm, 'flav': 'frac'},
+                        'opts': {'linearise': True, 'feas_ms': 1000, 'budget_s': 170 if tier == 'quick' else 1500}})
     for recv in ('dv', 'money'):
         for amt in AMOUNTS[recv][:2]:
             out.append({'fn': 'ratios_sym', 'cfg': {'recv': recv, 'n': 2, 'disperse': True, 'amount': amt,
